@@ -15,7 +15,7 @@ ID = "C17"
 RULE = (
     "every tree shape within the node bound under the identity, adversarial and (thorough) "
     "non-ASCII naming x every alias map with up to k keys over the modules x alias strings from "
-    "{A, x.y, a+b, (, empty} x spacing present/absent x one pass-through keyword, plus every "
+    "{A, x.y, a+b, (, empty, $\\beta$, \\g<0>, p\\1} x spacing present/absent x one pass-through keyword, plus every "
     "single unknown alias key; the drawing backend is intercepted and labels / keywords are "
     "compared with the label model; a case is one visualize() call; non-trivial = at least one "
     "alias applies to a module other than the key itself or the key is unknown"
@@ -25,7 +25,7 @@ ASSUMPTIONS = [
     "label model: alias of the longest aliased ancestor-or-self on dotted-name boundaries + remaining suffix, else the full name",
 ]
 
-ALIAS_POOL = ["A", "x.y", "a+b", "(", ""]
+ALIAS_POOL = ["A", "x.y", "a+b", "(", "", "$\\beta$", "\\g<0>", "p\\1"]  # incl. regex metacharacters and replacement-template escapes
 
 
 class Recorder:
@@ -37,13 +37,14 @@ class Recorder:
 
 
 def plan(tier, seed):
-    n_max, k = (5, 2) if tier == "quick" else (5, 3)
+    n_max, k = (5, 3) if tier == "quick" else (6, 3)
     namings = ["identity", "adversarial"] + (["unicode"] if tier == "thorough" else [])
     shards = []
     for n in range(2, n_max + 1):
         for t in trees(n):
             for naming in namings:
-                shards.append({"tree": t, "naming": naming, "k": k, "bound": f"trees<={n_max} alias keys<={k} naming={naming}"})
+                kk = k if (tier == "thorough" or n <= 4) else 2  # quick: three nested keys on trees up to 4 modules
+                shards.append({"tree": t, "naming": naming, "k": kk, "bound": f"trees<={n_max} alias keys<={k} (n=5: {kk}) naming={naming}" if kk != k else f"trees<={n_max} alias keys<={k} naming={naming}"})
     return {"shards": shards, "require_nonzero": ["label:aliased", "label:plain", "unknown-key:ERR", "spacing"]}
 
 
